@@ -307,6 +307,24 @@ int32 parseClientHelloExtensions(ssl_t *ssl, unsigned char **cp, unsigned short 
         }
     }
 
+# ifdef USE_STATELESS_SESSION_TICKETS
+    /* RFC 7627 5.3: the ticket's session did not use the extended master
+        secret but this hello does: no abbreviated handshake, fall back to a
+        full one (matrixUnlockSessionTicket left the ticket's flag in
+        require_extended_master_secret) */
+    if ((ssl->flags & SSL_FLAGS_RESUMED) && ssl->sid &&
+        ssl->sid->sessionTicketState == SESS_TICKET_STATE_USING_TICKET &&
+        ssl->extFlags.require_extended_master_secret == 0 &&
+        ssl->extFlags.extended_master_secret == 1)
+    {
+        ssl->flags &= ~SSL_FLAGS_RESUMED;
+        ssl->sid->sessionTicketState = (ssl->keys && ssl->keys->sessTickets) ?
+            SESS_TICKET_STATE_RECVD_EXT : SESS_TICKET_STATE_INIT;
+        Memset(ssl->sec.masterSecret, 0x0, SSL_HS_MASTER_SIZE);
+        Memset(ssl->sessionId, 0x0, SSL_MAX_SESSION_ID_SIZE);
+        ssl->sessionIdLen = 0;
+    }
+# endif
     /* Handle the extensions that were missing or not what we wanted */
     if (ssl->extFlags.require_extended_master_secret == 1 &&
         ssl->extFlags.extended_master_secret == 0)
